@@ -229,9 +229,52 @@ func (c *Ctx) ruleEveryInteraction() {
 					}
 					// skipping: a `return nil` / continue before the assign inside the HTTP branch
 					skip := false
+					lcf := buildCFG(fl.Body)
+					// "this is not an HTTP interaction": the false edge of <id>.Protocol() == HTTP, the true edge of !=,
+					// or the false edge of the comma-ok of an assertion to *HTTPInteraction
+					okVars := map[types.Object]bool{}
+					ast.Inspect(fl.Body, func(n ast.Node) bool {
+						if as, isAs := n.(*ast.AssignStmt); isAs && len(as.Lhs) == 2 && len(as.Rhs) == 1 {
+							if ta, isTA := ast.Unparen(as.Rhs[0]).(*ast.TypeAssertExpr); isTA && ta.Type != nil && strings.HasSuffix(exprString(ta.Type), "HTTPInteraction") {
+								if id, isId := as.Lhs[1].(*ast.Ident); isId {
+									if o := pk.TypesInfo.Defs[id]; o != nil {
+										okVars[o] = true
+									}
+								}
+							}
+						}
+						return true
+					})
+					notHTTP := func(cond ast.Expr, trueEdge bool) bool {
+						if id, isId := ast.Unparen(cond).(*ast.Ident); isId && okVars[pk.TypesInfo.Uses[id]] {
+							return !trueEdge
+						}
+						be, isBe := ast.Unparen(cond).(*ast.BinaryExpr)
+						if !isBe || (be.Op != token.EQL && be.Op != token.NEQ) {
+							return false
+						}
+						isProto := func(e ast.Expr) bool {
+							call, ok := ast.Unparen(e).(*ast.CallExpr)
+							if !ok {
+								return false
+							}
+							cal := callee(pk, call)
+							return cal != nil && cal.Name() == "Protocol"
+						}
+						isHTTP := func(e ast.Expr) bool {
+							k := constObj(pk, e)
+							return k != nil && k.Name() == "HTTP"
+						}
+						if !((isProto(be.X) && isHTTP(be.Y)) || (isProto(be.Y) && isHTTP(be.X))) {
+							return false
+						}
+						return (be.Op == token.EQL && !trueEdge) || (be.Op == token.NEQ && trueEdge)
+					}
 					ast.Inspect(fl.Body, func(n ast.Node) bool {
 						if ret, isRet := n.(*ast.ReturnStmt); isRet && ret.End() < assign.Pos() && len(ret.Results) == 1 && isNil(pk, ret.Results[0]) {
-							skip = true
+							if !lcf.establishedAt(ret, notHTTP, nil) {
+								skip = true
+							}
 						}
 						return true
 					})
